@@ -768,3 +768,17 @@ Proof.
     rewrite I1, I2, I3, I4. unfold reset_reply_w, reset_state_w.
     repeat split. constructor; [reflexivity|exact I5].
 Qed.
+
+(* ---------- evaluation helpers used by the correspondence, pinned on concrete inputs ---------- *)
+(* initial workers: sub-environment i gets script i at cursor0, no reset_info, attribute 0, env id i, its own "wrapped" flag *)
+Example ex_winitw :
+  winitw [[mk_episode 1 2 []]; [mk_episode 3 4 []]] [true]
+  = [mk_wstate ([mk_episode 1 2 []], cursor0) None 0%Z 0%Z true; mk_wstate ([mk_episode 3 4 []], cursor0) None 0%Z 1%Z false] /\
+  winit [[mk_episode 1 2 []]] = [mk_wstate ([mk_episode 1 2 []], cursor0) None 0%Z 0%Z false].
+Proof. split; reflexivity. Qed.
+(* the scheduled run of a one-call history completes (nothing of the program is left) and logs the reset reply *)
+Example ex_run_subproc_completes :
+  run_subproc_scripted [[mk_episode 7 8 [mk_sstep 9 0 true false 1]]] [KaReset] [1; 0; 2] = (0, [(0, ResReset 7%Z (Some 8%Z))]) /\
+  run_subproc_scripted_w [[mk_episode 7 8 [mk_sstep 9 0 true false 1]]] [true] [KaReset; KaIsWrapped [0]] []
+  = (0, [(0, ResReset 7%Z (Some 8%Z)); (0, ResBool true)]).
+Proof. split; vm_compute; reflexivity. Qed.
